@@ -4,6 +4,7 @@ import (
 	"fmt"
 	"go/ast"
 	"go/token"
+	"go/types"
 	"golang.org/x/tools/go/ssa"
 	"sort"
 	"strings"
@@ -174,6 +175,181 @@ func ruleV3(c *Ctx) {
 	}
 }
 
+// V4: a running per-header extent restarts per header. A list parser that keeps a running extent (a PField of the
+// list object that it restarts from the element just parsed and otherwise extends; it is what the header-line
+// parser copies into Hdr.Val) must decide "restart" from header-scoped state: the branch that selects the restart
+// store tests a counter of the same object that the header-line parser advances when it enters a new header.
+// Deciding it from the per-message value counter alone makes the value of a second header of the same type span
+// back to the first one.
+func ruleV4(c *Ctx) {
+	// header counters: int fields of a struct T incremented by a function other than T's own value parsers
+	type fld struct {
+		t string
+		i int
+	}
+	incBy := map[fld][]*ssa.Function{}
+	var names []string
+	for k := range c.SFuncs {
+		names = append(names, k)
+	}
+	sort.Strings(names)
+	structOf := func(v ssa.Value) (string, bool) {
+		pt, ok := v.Type().Underlying().(*types.Pointer)
+		if !ok {
+			return "", false
+		}
+		nt, ok := pt.Elem().(*types.Named)
+		if !ok {
+			return "", false
+		}
+		if _, ok := nt.Underlying().(*types.Struct); !ok {
+			return "", false
+		}
+		return nt.Obj().Name(), true
+	}
+	for _, k := range names {
+		fn := c.SFuncs[k]
+		for _, b := range fn.Blocks {
+			for _, ins := range b.Instrs {
+				st, ok := ins.(*ssa.Store)
+				if !ok {
+					continue
+				}
+				fa, ok := st.Addr.(*ssa.FieldAddr)
+				if !ok {
+					continue
+				}
+				bo, ok := st.Val.(*ssa.BinOp)
+				if !ok || bo.Op != token.ADD {
+					continue
+				}
+				ld, ok := bo.X.(*ssa.UnOp)
+				one, isC := constIntOf(bo.Y)
+				if !ok || !isC || one != 1 || ld.Op != token.MUL {
+					continue
+				}
+				if fa2, ok := ld.X.(*ssa.FieldAddr); ok && fa2.Field == fa.Field && sameAddr(fa2.X, fa.X) {
+					if tn, ok := structOf(fa.X); ok {
+						incBy[fld{tn, fa.Field}] = append(incBy[fld{tn, fa.Field}], fn)
+					}
+				}
+			}
+		}
+	}
+	n := 0
+	for _, k := range names {
+		fn := c.SFuncs[k]
+		var cds map[*ssa.BasicBlock][]ctrlDep
+		for _, b := range fn.Blocks {
+			for _, ins := range b.Instrs {
+				st, ok := ins.(*ssa.Store)
+				if !ok {
+					continue
+				}
+				fa, ok := st.Addr.(*ssa.FieldAddr)
+				if !ok || typeShort(st.Val.Type()) != "PField" {
+					continue
+				}
+				if _, isParam := fa.X.(*ssa.Parameter); !isParam {
+					continue
+				}
+				src, ok := st.Val.(*ssa.UnOp)
+				if !ok || src.Op != token.MUL {
+					continue
+				}
+				if sfa, ok := src.X.(*ssa.FieldAddr); !ok || sameAddr(sfa.X, fa.X) {
+					continue // not copied from another object (the element just parsed)
+				}
+				tn, ok := structOf(fa.X)
+				if !ok {
+					continue
+				}
+				// running extent: the same field is extended on the other arm of the branch that selects this store
+				if cds == nil {
+					cds = controlDeps(fn)
+				}
+				extended := false
+				for _, b2 := range fn.Blocks {
+					for _, i2 := range b2.Instrs {
+						if call, ok := i2.(*ssa.Call); ok && len(call.Call.Args) > 0 {
+							if cal := call.Call.StaticCallee(); cal != nil && cal.Name() == "Extend" {
+								if r, ok := call.Call.Args[0].(*ssa.FieldAddr); ok && r.Field == fa.Field && sameAddr(r.X, fa.X) {
+									for _, d1 := range cds[b] {
+										for _, d2 := range cds[b2] {
+											if d1.branch == d2.branch && d1.idx != d2.idx {
+												extended = true
+											}
+										}
+									}
+								}
+							}
+						}
+					}
+				}
+				if !extended {
+					continue
+				}
+				// header counters of this object advanced elsewhere
+				var counters []int
+				for f2, fns := range incBy {
+					if f2.t != tn {
+						continue
+					}
+					for _, g := range fns {
+						if g != fn {
+							counters = append(counters, f2.i)
+							break
+						}
+					}
+				}
+				sort.Ints(counters)
+				n++
+				key := k + ":" + fieldCell(fa) + ":restart"
+				if len(counters) == 0 {
+					c.fail("V4", key, st.Pos(), "no header counter found: no other function advances an int field of "+tn)
+					continue
+				}
+				if cds == nil {
+					cds = controlDeps(fn)
+				}
+				// transitive control dependence of the store's block
+				seen := map[*ssa.BasicBlock]bool{}
+				work := []*ssa.BasicBlock{b}
+				tested := false
+				for len(work) > 0 {
+					x := work[0]
+					work = work[1:]
+					for _, cd := range cds[x] {
+						if seen[cd.branch] {
+							continue
+						}
+						seen[cd.branch] = true
+						work = append(work, cd.branch)
+						iff := cd.branch.Instrs[len(cd.branch.Instrs)-1].(*ssa.If)
+						var ops []*ssa.Value
+						if ci, ok := iff.Cond.(ssa.Instruction); ok {
+							ops = ci.Operands(ops)
+						}
+						for _, o := range ops {
+							if ld, ok := (*o).(*ssa.UnOp); ok && ld.Op == token.MUL {
+								if cfa, ok := ld.X.(*ssa.FieldAddr); ok && sameAddr(cfa.X, fa.X) {
+									for _, ci := range counters {
+										if cfa.Field == ci {
+											tested = true
+										}
+									}
+								}
+							}
+						}
+					}
+				}
+				c.check(tested, "V4", key, st.Pos(), "the running extent "+fieldCell(fa)+" (restarted here from the element just parsed, extended otherwise) restarts under a test of the object's header counter — the field the header-line parser advances on entering a new header — not of the per-message value count alone")
+			}
+		}
+	}
+	c.check(n >= 2, "V4", "extents", token.NoPos, fmt.Sprintf("%d running per-header extents found (frozen minimum 2)", n))
+}
+
 // fsmIndexName: source name of the scan index of an extracted automaton (the loop-head phi compared with len(buf)).
 func fsmIndexName(r *fsmResult) string {
 	if r == nil || r.head == nil {
@@ -296,10 +472,11 @@ func init() {
 		Rules: []Rule{
 			{"V1", "framing views are the returned offset: on every definitive return of ParseSIPMsg the body starts where the headers ended and is extended to the returned offset, Buf = buf[0:ret], RawMsg = Buf[msg.offs:ret]; msg.offs is stored once, in state Init, from the offs parameter", ruleV1},
 			{"V2", "Hdr.Val comes from the value object of the same header: the 8 typed branches of the first call and the 8 resume cases of ParseHdrLine use the same getter, the same parser and copy the same value field, which belongs to the object passed to the parser", ruleV2},
+			{"V4", "a running per-header extent (LastHVal of the Contact / P-Asserted-Identity lists: restarted from the element just parsed, extended otherwise, copied into Hdr.Val) restarts under a test of the header counter that the header-line parser advances on a new header, so the value of a repeated header never spans back to the previous header of that type", ruleV4},
 			{"V5", "trimming survives a suspension: in every state of the 5 extracted automata that a more-bytes exit persists together with an offset already advanced by the whitespace skipper, no transition taken on a whitespace byte or at buffer end closes a span at the bare scan index (Extend(i) / Set(a,i) / *end=i) — after a resume the index is past the trailing blanks and they would become part of the value", ruleV5},
 			{"V3", "nesting by sibling agreement on the completing exits of the extracted automata: an exit that extends Params (or closes the URI) extends the whole value V to the same end; the tag is the parameter value span; the CSeq number starts V and the method ends it", ruleV3},
 		},
 		Assumptions: []string{"field end arguments are positions <= len(buf) (C04-P2)"},
-		NotDecided:  "containment, ordering and non-overlap of fields and trimming as values; in particular the observed defect that the Hdr.Val of a second Contact / P-Asserted-Identity header spans back to the first one (LastHVal keyed on the per-message value counter) is not decided by any rule here",
+		NotDecided:  "containment, ordering and non-overlap of fields and trimming as values",
 	})
 }
